@@ -115,6 +115,17 @@ def inject(prog, rnd, idx):
       continue          # keep nonlocal/global declarations and chk() first
     if st.startswith(('chk(', 'nonlocal', 'global')):
       continue
+    # not at class-body level: control flow directly in the body of a class statement
+    # nested in a function is not convertible (cfg keeps the class statement as one
+    # node; conversion fails loudly and falls back), so no `if` is planted there
+    indent = len(l) - len(l.lstrip())
+    owner = None
+    for j in range(i - 1, -1, -1):
+      if lines[j].strip() and len(lines[j]) - len(lines[j].lstrip()) < indent:
+        owner = lines[j].strip()
+        break
+    if owner is not None and owner.startswith('class '):
+      continue
     cands.append(i)
   i = rnd.choice(cands)
   ind = lines[i][:len(lines[i]) - len(lines[i].lstrip())]
@@ -145,7 +156,7 @@ def classify(p, m, r):
 def run(tier):
   R = common.Run('C12', tier, 'translation_validation', ENCODED)
   rnd = random.Random(R.seed + 31)
-  sk = [p for p in gen.skeletons(2) if 'leaf_raise' not in p.tags and not ({'tryexc', 'handler', 'tryexcfin', 'handlerfin', 'tryelse'} & p.tags)]
+  sk = [p for p in gen.skeletons(2) if 'leaf_raise' not in p.tags and not ({'tryexc', 'handler', 'tryexcfin', 'handlerfin', 'tryelse', 'trybodyelse'} & p.tags)]
   if tier == 'quick':
     base = rnd.sample(sk, 50) + gen.random_programs(50, R.seed + 13, FEATURES)
   else:
